@@ -659,10 +659,17 @@ pub fn history_preemptions(p: &Program, hist: &crate::accept::History) -> Option
     let mode = scm::Mode { hb: false, any_waiter: true, spurious: true, spur_yield: false };
     let mut s = scm::St::init(p);
     let mut count = 0u32;
+    // a thread that has yielded (explicitly or inside a spin / wait op) and has not been switched
+    // away from since: the next switch away from it is the yield taking effect, not a pre-emption
+    // (loom keeps a yielded thread running when nobody else can run)
+    let mut yield_pending = vec![false; p.threads.len()];
     for (k, (t, i, r)) in hist.iter().enumerate() {
         let t = *t as usize;
         if s.th[t].pc != *i as usize {
             return None;
+        }
+        if *r != Res::Skip && matches!(p.threads[t][*i as usize].k, K::Yield | K::Await { .. } | K::AwaitSpun { .. } | K::NWait { .. } | K::NWaitUntil { .. }) {
+            yield_pending[t] = true;
         }
         let next = s.succ(p, t, mode).into_iter().find(|(_, fin)| *fin == Some(*r));
         match next {
@@ -682,12 +689,13 @@ pub fn history_preemptions(p: &Program, hist: &crate::accept::History) -> Option
                         p.threads[t][s.th[t].pc].k,
                         K::NWait { .. } | K::NWaitUntil { .. } | K::ParkUntil { .. } | K::CvWaitUntil { .. } | K::Wait { .. } | K::Yield | K::Await { .. } | K::AwaitSpun { .. }
                     );
-                if more && !inside {
+                if more && !inside && !yield_pending[t] {
                     let enabled = s.succ(p, t, mode).iter().any(|(n, _)| !n.via_spurious);
                     if enabled {
                         count += 1;
                     }
                 }
+                yield_pending[t] = false;
             }
         }
     }
@@ -2031,7 +2039,67 @@ fn statics_oracle(p: &Program) -> Box<dyn FnMut(&IterData) -> Option<Viol>> {
     })
 }
 
+/// Hand-written models (statics.rs): a thread-local first touched during its thread's teardown.
+fn eval_c17_custom(job: &Job) -> JobResult {
+    use std::sync::atomic::Ordering::SeqCst;
+    let mut res = JobResult::default();
+    let which = job.extra["which"].as_u64().unwrap_or(0) as usize;
+    let before = [
+        crate::statics::EARLY_INITS.load(SeqCst),
+        crate::statics::EARLY_DROPS.load(SeqCst),
+        crate::statics::LATE_INITS.load(SeqCst),
+        crate::statics::LATE_DROPS.load(SeqCst),
+    ];
+    let iters = std::sync::Arc::new(std::sync::atomic::AtomicUsize::new(0));
+    let i2 = iters.clone();
+    let mut b = loom::model::Builder::new();
+    b.log = false;
+    let r = std::panic::catch_unwind(std::panic::AssertUnwindSafe(move || {
+        b.check(move || {
+            i2.fetch_add(1, SeqCst);
+            crate::statics::tls_teardown_model(which);
+        })
+    }));
+    let after = [
+        crate::statics::EARLY_INITS.load(SeqCst),
+        crate::statics::EARLY_DROPS.load(SeqCst),
+        crate::statics::LATE_INITS.load(SeqCst),
+        crate::statics::LATE_DROPS.load(SeqCst),
+    ];
+    let d: Vec<usize> = (0..4).map(|k| after[k] - before[k]).collect();
+    let n = iters.load(SeqCst);
+    res.loom_iterations = n as u64;
+    res.states = n as u64;
+    res.transitions = n as u64;
+    res.nontrivial = true;
+    res.verdict = if r.is_ok() { "Ok".into() } else { "Panic".into() };
+    res.sample = json!({"mode": "custom", "model": which, "iterations": n, "early_inits": d[0], "early_drops": d[1], "late_inits": d[2], "late_drops": d[3]});
+    if let Err(p) = r {
+        let msg = p.downcast_ref::<&str>().map(|s| s.to_string()).or_else(|| p.downcast_ref::<String>().cloned()).unwrap_or_default();
+        res.violations.push(viol("statics", format!("custom model {}", which), "the model returns normally".into(), msg.lines().next().unwrap_or("").to_string(), json!({})));
+        return res;
+    }
+    let users = if which == 2 { 2 } else { 1 };
+    // one EARLY per using thread and iteration, one LATE created by each EARLY destructor, and
+    // everything that was initialised is dropped exactly once by the time the model has returned
+    if d[0] != users * n || d[1] != d[0] || d[2] != d[0] || d[3] != d[2] {
+        res.violations.push(viol(
+            "statics",
+            format!("custom model {}", which),
+            format!("{} iterations x {} thread(s): EARLY and LATE each initialised and dropped {} times", n, users, users * n),
+            format!("EARLY {} inits / {} drops, LATE {} inits / {} drops", d[0], d[1], d[2], d[3]),
+            json!({}),
+        ));
+    } else {
+        res.traces_validated += n as u64;
+    }
+    res
+}
+
 fn eval_c17(job: &Job) -> JobResult {
+    if job.extra.get("mode").and_then(|v| v.as_str()) == Some("custom") {
+        return eval_c17_custom(job);
+    }
     let p = &job.program;
     let mut res = JobResult::default();
     let sc = scm::explore(p, scm::Mode::explore(p), SC_MAX_STATES);
